@@ -485,7 +485,7 @@ func (g *c08Prog) program() string {
 		}
 		b.WriteString("(\n")
 		if mapc {
-			fmt.Fprintf(&b, "        x = split %s,\n", hx.Pick(r, []string{"self.w", "[1, 2]", `{"a": 1}`, g.value(2)}))
+			fmt.Fprintf(&b, "        x = split %s,\n", hx.Pick(r, []string{"self.w", "[1, 2]", `{"a": 1}`, g.value(2), "NOSUCH", "NOSUCH.z", "self.nosuch", "ST0.z", "ST1.f", "ALIAS0.z"}))
 		} else {
 			fmt.Fprintf(&b, "        x = %s,\n", hx.Pick(r, []string{"self.x", "self.w", "ST0.z", "ST0.f.a", g.value(2), g.value(3)}))
 		}
@@ -771,6 +771,13 @@ func c08GenPrograms(tier string, r *hx.Rng) {
 		emitM("pipeline " + nm + "(\n    in  int x,\n    out int y,\n)\n{\n    return (\n        y = self.x,\n    )\n}\n")
 		emitM("stage A(\n    in  int x,\n    out int y,\n    src py \"x\",\n)\npipeline P(\n    in  int x,\n    out int y,\n)\n{\n    call A as " + nm + "(\n        x = self.x,\n    )\n    return (\n        y = " + nm + ".y,\n    )\n}\n")
 		emitM("call " + nm + "(\n    x = 1,\n)\n")
+	}
+	// map calls whose split source is wrong in some way, chained
+	for _, srcExp := range []string{"NOSUCH", "NOSUCH.y", "self.nosuch", "self.a", "self.n", "A.nosuch", "null", "[]", "{}", "[1]", "{\"k\": 1}", "1", "\"s\"", "B.y", "A.y", "true", "[[1]]", "[self.a]", "{\"k\": self.a}"} {
+		for _, second := range []string{"A.y", "A", "A.x", "self.a", "A.y.z"} {
+			emitM("stage S(\n    in  int   x,\n    out int[] y,\n    src py    \"s\",\n)\n\npipeline P(\n    in  int[] a,\n    in  int   n,\n    out int   z,\n)\n{\n" +
+				"    map call S as A(\n        x = split " + srcExp + ",\n    )\n\n    map call S as B(\n        x = split " + second + ",\n    )\n\n    return (\n        z = 1,\n    )\n}\n")
+		}
 	}
 	g := &c08Prog{r: r, hot: 25}
 	for i := 0; i < 500*mul; i++ {
